@@ -30,6 +30,9 @@ const M = 100 * time.Millisecond
 type Arm struct {
 	Round uint64 `json:"round"`
 	GapMs int    `json:"gap_ms"` // sleep before this arming (first: after the program's start)
+	// NextHeight: this arming is the first of the NEXT height (next slot) on the same timer object - the runner's timer
+	// is shared by the consecutive instances of a validator and role; rounds start again from a low number
+	NextHeight bool `json:"next_height,omitempty"`
 }
 
 type TimerProg struct {
@@ -52,25 +55,31 @@ type fakeNet struct {
 	slot      time.Duration
 }
 
-func (f *fakeNet) GetSlotStartTime(phase0.Slot) time.Time { return f.slotStart }
-func (f *fakeNet) SlotDurationSec() time.Duration         { return f.slot }
+func (f *fakeNet) GetSlotStartTime(s phase0.Slot) time.Time {
+	return f.slotStart.Add(time.Duration(int64(s)-firstHeight) * f.slot)
+}
+func (f *fakeNet) SlotDurationSec() time.Duration { return f.slot }
 
 type cb struct {
 	round specqbft.Round
 	at    time.Time
 }
 
+const firstHeight = 7
+
 type armRec struct {
+	height   uint64
 	round    specqbft.Round
 	at       time.Time
 	deadline time.Time
 }
 
 type timerOutcome struct {
-	fail      *prog.Failure
-	discard   bool
-	callbacks int
-	rearmed   bool
+	crossHeight int
+	fail        *prog.Failure
+	discard     bool
+	callbacks   int
+	rearmed     bool
 }
 
 // deadline recomputes the documented rule: slot start + role base + cumulative per-round allowance
@@ -123,11 +132,15 @@ func runTimer(p TimerProg) timerOutcome {
 			maxOvershoot = o
 		}
 	}
+	height := uint64(firstHeight)
 	for _, a := range p.Arms {
 		sleep(time.Duration(a.GapMs) * time.Millisecond)
+		if a.NextHeight {
+			height++
+		}
 		at := time.Now()
-		rt.TimeoutForRound(7, specqbft.Round(a.Round))
-		arms = append(arms, armRec{specqbft.Round(a.Round), at, deadline(p, net.slotStart, at, a.Round)})
+		rt.TimeoutForRound(specqbft.Height(height), specqbft.Round(a.Round))
+		arms = append(arms, armRec{height, specqbft.Round(a.Round), at, deadline(p, net.GetSlotStartTime(phase0.Slot(height)), at, a.Round)})
 	}
 	last := arms[len(arms)-1]
 	var cancelAt time.Time
@@ -154,38 +167,71 @@ func runTimer(p TimerProg) timerOutcome {
 		return out
 	}
 	out.callbacks = len(got)
-	perRound := map[specqbft.Round]int{}
+	// every callback must belong to the arming that was the most recent one when it fired (or, within the margin M after a
+	// re-arming, to the one just superseded), must not come before that arming's deadline, and each arming gets at most one
+	perArm := map[int]int{}
 	for _, c := range got {
-		perRound[c.round]++
-		var arm *armRec
+		cur := -1
 		for i := range arms {
-			if arms[i].round == c.round {
-				arm = &arms[i]
+			if !arms[i].at.After(c.at) {
+				cur = i
 			}
 		}
-		if arm == nil {
-			out.fail = prog.Failf("C17:callback-for-unarmed-round", "callback for round %d which was never armed (armed: %v)", c.round, p.Arms)
+		if cur < 0 {
+			out.fail = prog.Failf("C17:callback-for-unarmed-round", "callback for round %d before anything was armed (armed: %v)", c.round, p.Arms)
 			return out
 		}
-		if c.at.Before(arm.deadline.Add(-time.Millisecond)) {
-			out.fail = prog.Failf("C17:callback-early", "callback for round %d fired %v before its deadline (role %d, armed %v after start, deadline %v after start)",
-				c.round, arm.deadline.Sub(c.at), p.Role, arm.at.Sub(start), arm.deadline.Sub(start))
-			return out
-		}
-		for _, later := range arms {
-			if later.round > c.round && c.at.After(later.at.Add(M)) {
-				out.fail = prog.Failf("C17:stale-callback", "callback for round %d fired %v after the timer had been re-armed for round %d", c.round, c.at.Sub(later.at), later.round)
-				return out
+		owner := -1
+		for j := cur; j >= 0; j-- {
+			if arms[j].round == c.round {
+				owner = j
+				break
+			}
+			if c.at.After(arms[j].at.Add(M)) {
+				break // arming j had been in force for longer than the margin: nothing older may fire any more
 			}
 		}
+		if owner < 0 {
+			known := false
+			for _, a := range arms {
+				known = known || a.round == c.round
+			}
+			if !known {
+				out.fail = prog.Failf("C17:callback-for-unarmed-round", "callback for round %d which was never armed (armed: %v)", c.round, p.Arms)
+			} else {
+				out.fail = prog.Failf("C17:stale-callback", "callback for round %d fired %v after the timer had been re-armed for height %d round %d", c.round, c.at.Sub(arms[cur].at), arms[cur].height, arms[cur].round)
+			}
+			return out
+		}
+		// The statement speaks of ONE instance. RoundTimer never stops the timers of earlier armings; its only guard is
+		// "the armed round number still equals mine", so a listener left over from the PREVIOUS height fires if the new
+		// height happens to have the same round number armed at that moment (not reachable with the production
+		// allowances, where a height's deadlines lie before the next duty's same-numbered rounds). Such a callback is
+		// counted, not judged; a left-over listener firing for a round the new instance has NOT armed is judged (stale).
+		crossHeight := false
+		for _, a := range arms[:owner] {
+			if a.height < arms[owner].height && a.round == c.round && !c.at.Before(a.deadline.Add(-time.Millisecond)) {
+				crossHeight = true
+			}
+		}
+		if crossHeight {
+			out.crossHeight++
+			continue
+		}
+		if c.at.Before(arms[owner].deadline.Add(-time.Millisecond)) {
+			out.fail = prog.Failf("C17:callback-early", "callback for round %d fired %v before its deadline (role %d, height %d, armed %v after start, deadline %v after start)",
+				c.round, arms[owner].deadline.Sub(c.at), p.Role, arms[owner].height, arms[owner].at.Sub(start), arms[owner].deadline.Sub(start))
+			return out
+		}
+		perArm[owner]++
 		if !cancelAt.IsZero() && c.at.After(cancelAt.Add(M)) {
 			out.fail = prog.Failf("C17:callback-after-cancel", "callback for round %d fired %v after the parent context was cancelled", c.round, c.at.Sub(cancelAt))
 			return out
 		}
 	}
-	for r, n := range perRound {
+	for i, n := range perArm {
 		if n > 1 {
-			out.fail = prog.Failf("C17:callback-twice", "round %d armed once, callback invoked %d times", r, n)
+			out.fail = prog.Failf("C17:callback-twice", "height %d round %d armed once, callback invoked %d times", arms[i].height, arms[i].round, n)
 			return out
 		}
 	}
@@ -223,6 +269,7 @@ func runBatch(b Batch) *prog.Result {
 		if o.rearmed {
 			rearm++
 		}
+		prog.Count("TestPropTimer", "obs_previous_height_listener_fired_for_same_round_number", o.crossHeight)
 	}
 	prog.Count("TestPropTimer", "timer_programs", len(outs))
 	prog.Count("TestPropTimer", "timer_programs_discarded_descheduled", disc)
@@ -251,7 +298,11 @@ func genTimerProg(t *rapid.T) TimerProg {
 		// gaps are either short (re-arm clearly before the previous deadline in most configurations) or long
 		// (clearly after); what they were is derived from measured times, not assumed
 		gap := rapid.SampledFrom([]int{0, 1, 5, 10, 250, 450}).Draw(t, "gap")
-		p.Arms = append(p.Arms, Arm{Round: round, GapMs: gap})
+		next := i > 0 && rapid.IntRange(0, 3).Draw(t, "nextheight") == 0
+		if next {
+			round = uint64(rapid.SampledFrom([]int{1, 1, 1, 2}).Draw(t, "nh_round"))
+		}
+		p.Arms = append(p.Arms, Arm{Round: round, GapMs: gap, NextHeight: next})
 	}
 	if rapid.IntRange(0, 3).Draw(t, "cancel_on") == 0 {
 		p.CancelMs = rapid.SampledFrom([]int{1, 10, 300}).Draw(t, "cancel")
